@@ -969,6 +969,124 @@ def rule_frozen_lists(em, rep, rid):
     return sm, pa
 
 
+class FieldOrigins:
+    """which engine fields a list-valued expression may come out of (the container held in ``self.F`` or anything inside
+    it), through locals, loop targets, helper results and parameters (call sites); copies (a + b, list(x), x[:], a
+    comprehension) come out of no field"""
+
+    def __init__(self, em):
+        self.em = em
+        self.memo = {}
+
+    def of(self, f, e, depth=0, seen=None):
+        seen = seen if seen is not None else set()
+        em = self.em
+        if e is None or depth > 8:
+            return set()
+        if isinstance(e, ast.Attribute):
+            if is_self_attr(e):
+                return {e.attr}
+            return self.of(f, e.value, depth + 1, seen)
+        if isinstance(e, ast.Subscript):
+            if isinstance(e.slice, ast.Slice):
+                return set()
+            return self.of(f, e.value, depth + 1, seen)
+        if isinstance(e, (ast.IfExp,)):
+            return self.of(f, e.body, depth + 1, seen) | self.of(f, e.orelse, depth + 1, seen)
+        if isinstance(e, ast.BoolOp):
+            out = set()
+            for v in e.values:
+                out |= self.of(f, v, depth + 1, seen)
+            return out
+        if isinstance(e, ast.Call):
+            if isinstance(e.func, ast.Attribute) and e.func.attr in ('get', 'setdefault', 'pop', 'values', 'items', '__getitem__'):
+                out = self.of(f, e.func.value, depth + 1, seen)
+                if e.func.attr in ('get', 'setdefault') and len(e.args) > 1:
+                    out |= self.of(f, e.args[1], depth + 1, seen)
+                return out
+            if isinstance(e.func, ast.Name) and e.func.id in ('list', 'tuple', 'sorted', 'reversed', 'set', 'dict', 'len'):
+                return set()
+            out = set()
+            for g in em.cg.resolve_callable(f, e.func):
+                if g.module.name != 'engine' or g.is_generator or g.name == '__init__':
+                    continue
+                key = ('ret', g)
+                if key in seen:
+                    continue
+                seen.add(key)
+                for r in own_nodes(g.node):
+                    if isinstance(r, ast.Return) and r.value is not None:
+                        out |= self.of(g, r.value, depth + 1, seen)
+            return out
+        if isinstance(e, ast.Name):
+            key = (f, e.id)
+            if key in seen:
+                return set()
+            seen.add(key)
+            out = set()
+            if e.id in f.all_params:
+                for g, call in em.cg.call_sites_of(f):
+                    a = arg_for_param(call, f, e.id)
+                    if a is not None:
+                        out |= self.of(g, a, depth + 1, seen)
+            for s_ in own_nodes(f.node):
+                if isinstance(s_, ast.Assign) and any(is_name(t, e.id) for t in s_.targets):
+                    out |= self.of(f, s_.value, depth + 1, seen)
+                if isinstance(s_, ast.Assign) and any(isinstance(t, (ast.Tuple, ast.List)) and any(is_name(x, e.id) for x in t.elts) for t in s_.targets):
+                    out |= self.of(f, s_.value, depth + 1, seen)
+                if isinstance(s_, (ast.For, ast.comprehension)) and any(is_name(x, e.id) for x in ast.walk(s_.target)):
+                    out |= self.of(f, s_.iter, depth + 1, seen)
+                if isinstance(s_, ast.NamedExpr) and is_name(s_.target, e.id):
+                    out |= self.of(f, s_.value, depth + 1, seen)
+            return out
+        return set()
+
+
+def rule_walked_lists_never_changed_in_place(em, rep, rid):
+    rep.rule(rid, 'whatever list a suspendable enumeration walks comes out of engine state (the store, or any other field that '
+                  'holds clause lists: an index, a cache) only if no list inside that field is ever changed in place '
+                  '(append/insert/extend/remove/pop/sort/reverse, element or slice assignment, +=): a goal suspended between '
+                  'two answers would otherwise visit facts added, or skip facts removed, after it started')
+    fo = FieldOrigins(em)
+    walks = []
+    for f in em.repo.all_functions(('engine',)):
+        if not f.is_generator:
+            continue
+        for s_ in own_nodes_ordered(f.node):
+            if isinstance(s_, ast.For) and any(isinstance(x, (ast.Yield, ast.YieldFrom)) for b in s_.body for x in ast.walk(b)):
+                flds = fo.of(f, s_.iter)
+                if flds:
+                    walks.append((f, s_, flds))
+    muts = []
+    for f in em.repo.all_functions(('engine',)):
+        for x in own_nodes_ordered(f.node):
+            recv = None
+            if isinstance(x, ast.Call) and isinstance(x.func, ast.Attribute) and x.func.attr in _MUTATORS:
+                recv = x.func.value
+            elif isinstance(x, ast.Subscript) and isinstance(x.ctx, (ast.Store, ast.Del)):
+                recv = x.value
+            elif isinstance(x, ast.AugAssign) and isinstance(x.op, ast.Add) and not isinstance(x.target, ast.Subscript):
+                recv = x.target if not is_self_attr(x.target) else None
+            if recv is None or is_self_attr(recv):
+                continue            # the field's own container (publishing an entry) is not a list inside it
+            flds = fo.of(f, recv)
+            if flds:
+                muts.append((f, x, flds))
+    rep.minimum('suspendable walks over engine state', len(walks), 1)
+    bad = 0
+    for f, s_, wf in walks:
+        hit = [(g, x, mf) for g, x, mf in muts if wf & mf]
+        key = '%s:for %s' % (f.qname, norm(s_.iter)[:40])
+        if hit:
+            bad += 1
+            g, x, mf = hit[0]
+            rep.violation(rid, key, 'this suspendable loop walks a list that comes out of self.%s, and %s changes a list inside '
+                          'self.%s in place (%s): the running enumeration sees the change' % (
+                              ', self.'.join(sorted(wf & mf)), g.qname, ', self.'.join(sorted(wf & mf)), norm(x)[:50]), f.loc(s_))
+        else:
+            rep.ok(rid, key, 'walks lists out of %s, which are never changed in place' % ', '.join('self.' + k for k in sorted(wf)), f.loc(s_))
+
+
 def rule_no_read_yield_write(em, rep, rid, sm=None):
     rep.rule(rid, 'in every generator that publishes to the store, the published list derives only from store reads made '
                   'after the most recent yield on that path (otherwise changes made by others while suspended are lost)')
